@@ -376,3 +376,82 @@ func specMatches(fp *firewall.ParsedPacket, p specPkt) bool {
 //@   ensures[fields] implies(result == nil, specMatches(fp, old(specParse(data, incoming))))
 //@   ensures[reset]  implies(result != nil && (len(data) < 1 || (data[0]>>4 != 4 && data[0]>>4 != 6)), fp.IPHdrLen == 0 && !fp.FragAny)
 //@   assigns *fp
+
+// =====================================================================
+// C48 — calculated remotes splice mask and overlay bits exactly
+// =====================================================================
+//
+// Independent statement of the splice: the first n bits (n = prefix length of
+// the configured mask) come from the mask address, the rest from the peer's
+// overlay address. specTop32/specTop64 build the n-leading-ones mask
+// arithmetically (not via net.CIDRMask).
+
+//@ func specTop32
+//@   pure
+//@ func specTop64
+//@   pure
+//@ func specAddr32
+//@   pure
+//@ func specAddrHi
+//@   pure
+//@ func specAddrLo
+//@   pure
+
+func specTop32(n int) uint32 {
+	if n <= 0 {
+		return 0
+	}
+	if n >= 32 {
+		return ^uint32(0)
+	}
+	return ^uint32(0) << (32 - uint(n))
+}
+
+func specTop64(n int) uint64 {
+	if n <= 0 {
+		return 0
+	}
+	if n >= 64 {
+		return ^uint64(0)
+	}
+	return ^uint64(0) << (64 - uint(n))
+}
+
+func specAddr32(a netip.Addr) uint32 {
+	b := a.As4()
+	return uint32(b[0])<<24 | uint32(b[1])<<16 | uint32(b[2])<<8 | uint32(b[3])
+}
+
+func specAddrHi(a netip.Addr) uint64 {
+	b := a.As16()
+	return uint64(b[0])<<56 | uint64(b[1])<<48 | uint64(b[2])<<40 | uint64(b[3])<<32 | uint64(b[4])<<24 | uint64(b[5])<<16 | uint64(b[6])<<8 | uint64(b[7])
+}
+
+func specAddrLo(a netip.Addr) uint64 {
+	b := a.As16()
+	return uint64(b[8])<<56 | uint64(b[9])<<48 | uint64(b[10])<<40 | uint64(b[11])<<32 | uint64(b[12])<<24 | uint64(b[13])<<16 | uint64(b[14])<<8 | uint64(b[15])
+}
+
+//@ func newCalculatedRemote
+//@   props C48
+//@   ensures[accept] (result1 == nil) == (maskCidr.Addr().BitLen() == cidr.Addr().BitLen() && 0 <= port && port <= 65535)
+//@   ensures[value]  implies(result1 == nil, result0 != nil && fresh(result0) && result0.mask == maskCidr.Masked() && result0.ipNet == maskCidr && result0.port == uint32(port))
+//@   ensures[none]   implies(result1 != nil, result0 == nil)
+//@   assigns nothing
+
+//@ func (*calculatedRemote).ApplyV4
+//@   props C48
+//@   requires c != nil && c.mask.IsValid() && c.mask.Addr().Is4() && addr.Is4()
+//@   ensures[fresh]  result != nil && fresh(result)
+//@   ensures[port]   result.Port == c.port
+//@   ensures[splice] result.Addr == (specAddr32(c.mask.Addr())&specTop32(c.mask.Bits()))|(specAddr32(addr)&^specTop32(c.mask.Bits()))
+//@   assigns nothing
+
+//@ func (*calculatedRemote).ApplyV6
+//@   props C48
+//@   requires c != nil && c.mask.IsValid() && c.mask.Addr().Is6() && !c.mask.Addr().Is4In6() && addr.Is6()
+//@   ensures[fresh]  result != nil && fresh(result)
+//@   ensures[port]   result.Port == c.port
+//@   ensures[hi]     result.Hi == (specAddrHi(c.mask.Addr())&specTop64(c.mask.Bits()))|(specAddrHi(addr)&^specTop64(c.mask.Bits()))
+//@   ensures[lo]     result.Lo == (specAddrLo(c.mask.Addr())&specTop64(c.mask.Bits()-64))|(specAddrLo(addr)&^specTop64(c.mask.Bits()-64))
+//@   assigns nothing
